@@ -74,6 +74,12 @@ def ops_for(table):
             if s2 != s:
                 ops.append(['expr', '(%s-%s)*%s' % (s, s2, s)])
     ops.append(['expr', 'x+y'])
+    # scale probe: one long flat expression (more intermediate results than a short one needs)
+    if have:
+        terms = [have[i % len(have)] for i in range(12)]
+        ops.append(['expr', '+'.join(terms)])
+        ops.append(['expr', '%s=%s' % (have[-1], '+'.join(terms))])
+        ops.append(['expr', '%s=%s' % ([x for x in NAMES if x not in have][0] if len(have) < len(NAMES) else have[0], '+'.join(terms))])
     return ops
 
 
@@ -197,6 +203,12 @@ def expr_value(rhs, m, A):
         inner, s3 = rhs[1:].split(')*')
         s1, s2 = inner.split('-')
         return [nmul(nsub(p, q), r) for p, q, r in zip(env(s1), env(s2), env(s3))]
+    if rhs.count('+') >= 5 and all(t in NAMES for t in rhs.split('+')):
+        cols = [env(t) for t in rhs.split('+')]
+        acc = cols[0]
+        for c in cols[1:]:
+            acc = [nadd(p, q) for p, q in zip(acc, c)]
+        return acc
     if rhs == '2+1':
         return [A.const(3.0)] * n
     if rhs == 'x+y':
@@ -270,6 +282,13 @@ class C01(Check):
             for t in tables():
                 for op in ops_for(t):
                     js.append(dict(kind='step', n=n, table=list(t), op=op))
+        # scale probes: long tracks (300 / 1000 observations; values concrete except two symbolic entries per vector)
+        LONG_OPS = [['create', 'c', 'list'], ['create', 'c', 'scalar'], ['set', 'c', 'list'], ['set', 'a', 'list'], ['update', 'a', 'list'], ['update', 'b', 'scalar'],
+                    ['setobs', 'a'], ['remove', 'a'], ['del', 'b'], ['uvoid', 'a', 'c', 'D'], ['uvoid', 'b', 'b', 'I'], ['svoid', 'a', 'a', 'SMUL'], ['bvoid', 'a', 'b', 'c', 'ADD'],
+                    ['unary', 'a'], ['expr', 'c=a+b*2'], ['expr', 'a=D{b}'], ['expr', 'SUM{a}*b'], ['expr', 'x=a'], ['expr', 'a+=1']]
+        for n in ([300] if q else [129, 300, 1000]):
+            for op in LONG_OPS:
+                js.append(dict(kind='step', n=n, table=['a', 'b'], op=op, long=True))
         d = 2 if q else 3
         for first in range(len(self.HIST_OPS)):
             js.append(dict(kind='hist', n=2, first=first, depth=d))
@@ -278,8 +297,18 @@ class C01(Check):
     def patches(self, job):
         return std_patches([TRK, UTL, OPS], math=True, ints=True)
 
-    def _fresh(self, eng, inp, n, tag=''):
-        g = (lambda nm: eng.real(nm, -8, 8)) if inp is None else (lambda nm: float(inp[nm]))
+    @staticmethod
+    def _long_value(nm, n):
+        """long-track probes: every entry is a fixed number except entries 1 and n-2 of each vector"""
+        import re
+        mt = re.match(r'^([a-z]+)_?(\d+)$', nm)
+        if not mt or int(mt.group(2)) in (1, n - 2):
+            return None
+        return float((int(mt.group(2)) * 7 + sum(map(ord, mt.group(1)))) % 13 - 6)
+
+    def _fresh(self, eng, inp, n, tag='', long=False):
+        g0 = (lambda nm: eng.real(nm, -8, 8)) if inp is None else (lambda nm: float(inp[nm]))
+        g = (lambda nm: g0(nm) if self._long_value(nm, n) is None else self._long_value(nm, n)) if long else g0
         return dict(scalar=g('s' + tag), list=[g('l%s_%d' % (tag, i)) for i in range(n)], k=g('k' + tag), i=n - 1)
 
     def _check_state(self, tr, m, A, ctx, prove):
@@ -298,6 +327,8 @@ class C01(Check):
                 return 'reading %s does not give one value per observation' % nm
             for i in range(n):
                 g, w = got[i], want[i]
+                if not (core.is_sym(g) or isinstance(g, (int, float))):
+                    return 'reading %s[%d] gives a %s, a number was last written' % (nm, i, type(g).__name__)
                 if isnan(g) or isnan(w):
                     if not (isnan(g) and isnan(w)):
                         return 'reading %s[%d] gives %s, last written %s' % (nm, i, 'NaN' if isnan(g) else 'a number', 'NaN' if isnan(w) else 'a number')
@@ -315,7 +346,9 @@ class C01(Check):
         sym = inp is None
         A = aflib.ZAlg() if sym else aflib.FAlg()
         n = job['n']
-        g = (lambda nm: eng.real(nm, -8, 8)) if sym else (lambda nm: float(inp[nm]))
+        g0 = (lambda nm: eng.real(nm, -8, 8)) if sym else (lambda nm: float(inp[nm]))
+        long = bool(job.get('long'))
+        g = (lambda nm: g0(nm) if self._long_value(nm, n) is None else self._long_value(nm, n)) if long else g0
         xs, ys, zs = [g('x%d' % i) for i in range(n)], [g('y%d' % i) for i in range(n)], [g('z%d' % i) for i in range(n)]
         tr = aflib.make_track(n, xs, ys, zs)
         ts = [tr.getObs(i).timestamp for i in range(n)]
@@ -343,7 +376,7 @@ class C01(Check):
 
         def do(op, tag):
             """apply one op to track and model; returns violation or None"""
-            fresh = self._fresh(eng, inp, n, tag)
+            fresh = self._fresh(eng, inp, n, tag, long)
             try:
                 ret = apply_real(tr, op, fresh)
             except (core._Abort, core._Stop, core.Unsupported):
